@@ -318,6 +318,7 @@ var integer64 = []*instructionType{
 		},
 	}, {
 		name:         "slli",
+		shiftImmBits: 6,
 		opcode:       opcodeShiftImm(false, 6, 0b001, 0b0010011),
 		inputRegCnt:  1,
 		hasOutputReg: true,
@@ -327,6 +328,7 @@ var integer64 = []*instructionType{
 		},
 	}, {
 		name:         "srli",
+		shiftImmBits: 6,
 		opcode:       opcodeShiftImm(false, 6, 0b101, 0b0010011),
 		inputRegCnt:  1,
 		hasOutputReg: true,
@@ -336,6 +338,7 @@ var integer64 = []*instructionType{
 		},
 	}, {
 		name:         "srai",
+		shiftImmBits: 6,
 		opcode:       opcodeShiftImm(true, 6, 0b101, 0b0010011),
 		inputRegCnt:  1,
 		hasOutputReg: true,
@@ -541,6 +544,7 @@ var integer64 = []*instructionType{
 		},
 	}, {
 		name:         "csrrwi",
+		hasCSRImm:    true,
 		opcode:       opcode10(0b101, 0b1110011),
 		inputRegCnt:  0,
 		hasOutputReg: true,
@@ -555,6 +559,7 @@ var integer64 = []*instructionType{
 		},
 	}, {
 		name:         "csrrsi",
+		hasCSRImm:    true,
 		opcode:       opcode10(0b110, 0b1110011),
 		inputRegCnt:  0,
 		hasOutputReg: true,
@@ -571,6 +576,7 @@ var integer64 = []*instructionType{
 		},
 	}, {
 		name:         "csrrci",
+		hasCSRImm:    true,
 		opcode:       opcode10(0b111, 0b1110011),
 		inputRegCnt:  0,
 		hasOutputReg: true,
@@ -601,6 +607,7 @@ var integer64 = []*instructionType{
 		},
 	}, {
 		name:         "slliw",
+		shiftImmBits: 5,
 		opcode:       opcodeShiftImm(false, 5, 0b001, 0b0011011),
 		inputRegCnt:  1,
 		hasOutputReg: true,
@@ -610,6 +617,7 @@ var integer64 = []*instructionType{
 		},
 	}, {
 		name:         "srliw",
+		shiftImmBits: 5,
 		opcode:       opcodeShiftImm(false, 5, 0b101, 0b0011011),
 		inputRegCnt:  1,
 		hasOutputReg: true,
@@ -619,6 +627,7 @@ var integer64 = []*instructionType{
 		},
 	}, {
 		name:         "sraiw",
+		shiftImmBits: 5,
 		opcode:       opcodeShiftImm(true, 5, 0b101, 0b0011011),
 		inputRegCnt:  1,
 		hasOutputReg: true,
